@@ -61,6 +61,20 @@ Theorem zf_loaded_roundtrip data z : zf_deserialise data = Ok z ->
     exists txt' z'', zf_serialise z' = Ok txt' /\ zf_deserialise txt' = Ok z'' /\ zone_same z' z'' /\ zone_same z z''.
 Proof. apply (ztoz_twice zf_codec zf_codec_rt zf_codec_range). Qed.
 
+(* [built] is what Zone::new and insert / insert_wildcard generate *)
+Lemma built_new apex s : head_ok apex s -> built (zone_new apex s).
+Proof. intro H. exists apex, s, []. split; [exact H|]. split; [constructor|reflexivity]. Qed.
+
+Lemma built_insert z o : built z -> op_src_ok o -> exists z', zone_apply z o = Ok z' /\ built z'.
+Proof.
+  intros (apex & s & ops & Hh & Hops & Hb) Ho.
+  destruct (built_data z apex s ops Hh Hops Hb) as (Ea & Es & HR & _).
+  destruct (zone_apply_R apex s z _ o Ea Es HR (proj1 (proj1 Ho))) as (z' & Hz' & _).
+  exists z'. split; [exact Hz'|]. exists apex, s, (ops ++ [o]). split; [exact Hh|]. split.
+  - apply Forall_app. split; [exact Hops|constructor; [exact Ho|constructor]].
+  - unfold zone_build in *. rewrite zone_apply_all_app, Hb. cbn [bind zone_apply_all]. rewrite Hz'. reflexivity.
+Qed.
+
 (* ====================================================================== *)
 (* instances                                                               *)
 (* ====================================================================== *)
